@@ -140,14 +140,14 @@ theorem keys_updFrom_mono (col : κ → String) (keys : List κ) (row : Row) (d 
 
 /-! ### scaling -/
 
-theorem get_scaleKeys (keys : List κ) (n : Nat) (d : Dict κ) (k : κ) :
-    (scaleKeys keys n d).get k = if k ∈ keys then (d.get k).divNat n else d.get k := by
+theorem get_scaleKeys (keys : List κ) (n : Rat) (d : Dict κ) (k : κ) :
+    (scaleKeys keys n d).get k = if k ∈ keys then (d.get k).divBy n else d.get k := by
   induction d with
-  | nil => simp [scaleKeys, Dict.get, PV.divNat]
+  | nil => simp [scaleKeys, Dict.get, PV.divBy]
   | cons e es ih =>
     obtain ⟨a, v⟩ := e
-    have ih' : Dict.get (List.map (fun e => if keys.contains e.1 = true then (e.1, e.2.divNat n) else e) es) k
-        = if k ∈ keys then (Dict.get es k).divNat n else Dict.get es k := ih
+    have ih' : Dict.get (List.map (fun e => if keys.contains e.1 = true then (e.1, e.2.divBy n) else e) es) k
+        = if k ∈ keys then (Dict.get es k).divBy n else Dict.get es k := ih
     by_cases hka : k = a
     · subst hka
       by_cases hk : k ∈ keys
@@ -164,7 +164,7 @@ theorem get_scaleKeys (keys : List κ) (n : Nat) (d : Dict κ) (k : κ) :
         simp only [Dict.get, List.lookup, hb] at ih' ⊢
         exact ih'
 
-theorem keys_scaleKeys (keys : List κ) (n : Nat) (d : Dict κ) :
+theorem keys_scaleKeys (keys : List κ) (n : Rat) (d : Dict κ) :
     (scaleKeys keys n d).keys = d.keys := by
   induction d with
   | nil => rfl
@@ -425,11 +425,11 @@ theorem get_deployPart (methods : List String) (sd me p : String) :
 
 theorem get_globalMeth (tb : Tables) (methods : List String) (Gm : Dict MKey) (me p : String) :
     (globalMeth tb methods Gm).get (me, p)
-      = if me ∈ methods ∧ p ∈ tb.globalMeth then Gm.get (me, p)
+      = if me ∈ methods ∧ p ∈ tb.globalMeth then gmVal tb Gm (me, p)
         else if me ∈ methods ∧ p = tb.siteDeploy then PV.tru else .nul := by
   unfold globalMeth
   rw [Dict.get_append]
-  have hk : Dict.keys ((methKeys methods tb.globalMeth).map (fun k => (k, Gm.get k)))
+  have hk : Dict.keys ((methKeys methods tb.globalMeth).map (fun k => (k, gmVal tb Gm k)))
       = methKeys methods tb.globalMeth := by simp [Dict.keys, Function.comp_def]
   rw [hk, Dict.get_map_keys, get_deployPart]
   simp only [mem_methKeys]
@@ -595,14 +595,14 @@ def typeGet (typeRow : Option Row) (c : String) : Option PV := typeRow.bind (fun
 
 /-- the dictionaries an equipment group works with (after its own overrides) -/
 def groupCtx (tb : Tables) (methods : List String) (G : Dict String) (Gm : Dict MKey)
-    (typeRow : Option Row) (siteRow eqRow : Row) (nG : Nat) : Dict String × Dict MKey :=
+    (typeRow : Option Row) (siteRow eqRow : Row) (nG : Rat) : Dict String × Dict MKey :=
   groupDicts tb methods eqRow
     (scaleKeys tb.scalePlain nG (siteDicts tb methods G Gm typeRow siteRow).1)
     (scaleKeys (methKeys methods tb.scaleMeth) nG (siteDicts tb methods G Gm typeRow siteRow).2)
 
 /-- the dictionary a component of that group hands to its sources -/
 def compCtx (tb : Tables) (methods : List String) (G : Dict String) (Gm : Dict MKey)
-    (typeRow : Option Row) (siteRow eqRow : Row) (nG : Nat) : Dict String :=
+    (typeRow : Option Row) (siteRow eqRow : Row) (nG : Rat) : Dict String :=
   compDict tb (totalComponents tb eqRow) (groupCtx tb methods G Gm typeRow siteRow eqRow nG).1
 
 theorem get_sitePlain (tb : Tables) (h : tb.SameKeys) (methods : List String) (G : Dict String)
@@ -642,7 +642,7 @@ theorem keys_sitePlain (tb : Tables) (h : tb.SameKeys) (methods : List String) (
       simpa [keys_globalPlain] using hk
 
 theorem keys_groupPlain (tb : Tables) (h : tb.SameKeys) (methods : List String) (G : Dict String)
-    (Gm : Dict MKey) (typeRow : Option Row) (siteRow eqRow : Row) (nG : Nat) (k : String) :
+    (Gm : Dict MKey) (typeRow : Option Row) (siteRow eqRow : Row) (nG : Rat) (k : String) :
     k ∈ (groupCtx tb methods G Gm typeRow siteRow eqRow nG).1.keys ↔ k ∈ tb.globalPlain := by
   unfold groupCtx groupDicts
   simp only
@@ -657,12 +657,12 @@ theorem keys_groupPlain (tb : Tables) (h : tb.SameKeys) (methods : List String) 
     exact (keys_sitePlain tb h methods G Gm typeRow siteRow k).mpr hk
 
 theorem get_groupPlain (tb : Tables) (h : tb.SameKeys) (methods : List String) (G : Dict String)
-    (Gm : Dict MKey) (typeRow : Option Row) (siteRow eqRow : Row) (nG : Nat) (k : String)
+    (Gm : Dict MKey) (typeRow : Option Row) (siteRow eqRow : Row) (nG : Rat) (k : String)
     (hk : k ∈ tb.globalPlain) :
     (groupCtx tb methods G Gm typeRow siteRow eqRow nG).1.get k
       = resolve [eqRow.get? k]
           (if k ∈ tb.scalePlain
-            then (resolve [typeGet typeRow k, siteRow.get? k] (G.get k)).divNat nG
+            then (resolve [typeGet typeRow k, siteRow.get? k] (G.get k)).divBy nG
             else resolve [typeGet typeRow k, siteRow.get? k] (G.get k)) := by
   unfold groupCtx groupDicts
   simp only [resolve_cons, resolve_nil]
@@ -674,7 +674,7 @@ theorem get_groupPlain (tb : Tables) (h : tb.SameKeys) (methods : List String) (
   simp only [resolve_cons, resolve_nil]
 
 theorem keys_compCtx (tb : Tables) (h : tb.SameKeys) (hs : tb.ScaleOK) (methods : List String)
-    (G : Dict String) (Gm : Dict MKey) (typeRow : Option Row) (siteRow eqRow : Row) (nG : Nat)
+    (G : Dict String) (Gm : Dict MKey) (typeRow : Option Row) (siteRow eqRow : Row) (nG : Rat)
     (k : String) :
     k ∈ (compCtx tb methods G Gm typeRow siteRow eqRow nG).keys ↔ k ∈ tb.globalPlain := by
   unfold compCtx
@@ -696,12 +696,12 @@ theorem mem_scalePlain_iff (tb : Tables) (hs : tb.ScaleOK) (k : String) :
     · rw [h]; exact hs.named.nonIn
 
 theorem get_compCtx (tb : Tables) (h : tb.SameKeys) (hs : tb.ScaleOK) (methods : List String)
-    (G : Dict String) (Gm : Dict MKey) (typeRow : Option Row) (siteRow eqRow : Row) (nG : Nat)
+    (G : Dict String) (Gm : Dict MKey) (typeRow : Option Row) (siteRow eqRow : Row) (nG : Rat)
     (k : String) (hk : k ∈ tb.globalPlain) :
     (compCtx tb methods G Gm typeRow siteRow eqRow nG).get k
       = if k ∈ tb.scalePlain
           then (resolve [eqRow.get? k]
-                  ((resolve [typeGet typeRow k, siteRow.get? k] (G.get k)).divNat nG)).divPos
+                  ((resolve [typeGet typeRow k, siteRow.get? k] (G.get k)).divBy nG)).divPos
                 (totalComponents tb eqRow)
           else resolve [typeGet typeRow k, siteRow.get? k, eqRow.get? k] (G.get k) := by
   unfold compCtx
@@ -717,7 +717,7 @@ theorem get_compCtx (tb : Tables) (h : tb.SameKeys) (hs : tb.ScaleOK) (methods :
 /-- the global value of a method-specific parameter: from the method's parameter file, `True` for
 site deployment -/
 def globalMethVal (tb : Tables) (Gm : Dict MKey) (me p : String) : PV :=
-  if p ∈ tb.globalMeth then Gm.get (me, p) else PV.tru
+  if p ∈ tb.globalMeth then gmVal tb Gm (me, p) else PV.tru
 
 theorem get_siteMeth (tb : Tables) (h : tb.SameKeys) (methods : List String) (G : Dict String)
     (Gm : Dict MKey) (typeRow : Option Row) (siteRow : Row) (me p : String)
@@ -749,12 +749,12 @@ theorem get_siteMeth (tb : Tables) (h : tb.SameKeys) (methods : List String) (G 
   | some t => simp [typeGet, get_updFrom, hmT, hg, MKey.col]
 
 theorem get_groupMeth (tb : Tables) (h : tb.SameKeys) (methods : List String) (G : Dict String)
-    (Gm : Dict MKey) (typeRow : Option Row) (siteRow eqRow : Row) (nG : Nat) (me p : String)
+    (Gm : Dict MKey) (typeRow : Option Row) (siteRow eqRow : Row) (nG : Rat) (me p : String)
     (hme : me ∈ methods) (hp : p ∈ tb.groupMeth) :
     (groupCtx tb methods G Gm typeRow siteRow eqRow nG).2.get (me, p)
       = resolve [eqRow.get? (me ++ p)]
           (if p ∈ tb.scaleMeth
-            then (resolve [typeGet typeRow (me ++ p), siteRow.get? (me ++ p)] (globalMethVal tb Gm me p)).divNat nG
+            then (resolve [typeGet typeRow (me ++ p), siteRow.get? (me ++ p)] (globalMethVal tb Gm me p)).divBy nG
             else resolve [typeGet typeRow (me ++ p), siteRow.get? (me ++ p)] (globalMethVal tb Gm me p)) := by
   have hpa : p ∈ tb.allMeth := (List.mem_filter.mp hp).1
   unfold groupCtx groupDicts
@@ -778,22 +778,31 @@ theorem length_flatMap_range {α β : Type} (l : List α) (n : α → Nat) (f : 
   | nil => rfl
   | cons a as ih => simp [List.flatMap_cons, ih]
 
+/-- the equipment cell names groups or is a whole number (`2`, `2.0`), not `2.5` -/
+def EquipSpec.Integral : EquipSpec → Prop
+  | .count q => q = ((q.floor.toNat : Nat) : Rat)
+  | _ => True
+
+instance (spec : EquipSpec) : Decidable spec.Integral := by
+  cases spec <;> unfold EquipSpec.Integral <;> infer_instance
+
 theorem siteGroups_divisor (tb : Tables) (files : Files) (spec : EquipSpec) (d : Dict String)
-    (g : String × Row × Nat) (hg : g ∈ siteGroups tb files spec d) :
-    g.2.2 = (siteGroups tb files spec d).length := by
+    (hint : spec.Integral) (g : String × Row × Rat) (hg : g ∈ siteGroups tb files spec d) :
+    g.2.2 = ((siteGroups tb files spec d).length : Rat) := by
   cases spec with
   | named raw =>
     simp only [siteGroups, List.mem_map, List.length_map] at hg ⊢
     obtain ⟨n, _, hn⟩ := hg
     rw [← hn]
-  | count k =>
-    by_cases hk : k = 0
-    · subst hk
+  | count q =>
+    by_cases hq : q = 0
+    · subst hq
       simp only [siteGroups, if_true, List.mem_singleton, List.length_singleton] at hg ⊢
-      rw [hg]
-    · simp only [siteGroups, hk, if_false, List.mem_map, List.length_map, List.length_range] at hg ⊢
+      rw [hg]; simp
+    · simp only [siteGroups, hq, if_false, List.mem_map, List.length_map, List.length_range] at hg ⊢
       obtain ⟨i, _, hi⟩ := hg
       rw [← hi]
+      exact hint
   | bad => simp [siteGroups] at hg
 
 theorem mul_div_cancel_nat (x : Rat) (n : Nat) (hn : n ≠ 0) : (n : Rat) * (x / (n : Rat)) = x := by
@@ -801,20 +810,19 @@ theorem mul_div_cancel_nat (x : Rat) (n : Nat) (hn : n ≠ 0) : (n : Rat) * (x /
   grind
 
 /-- `c` components each carrying `(x/n)` split by `divPos c` add back up to `x/n` when `0 ≤ x` -/
-theorem comp_split (x : Rat) (n c : Nat) (hn : n ≠ 0) (hc : c ≠ 0) (hx : 0 ≤ x) :
-    (c : Rat) * numOf (((PV.num x).divNat n).divPos c) = x / (n : Rat) := by
+theorem comp_split (x n : Rat) (c : Nat) (hn : 0 < n) (hc : c ≠ 0) (hx : 0 ≤ x) :
+    (c : Rat) * numOf (((PV.num x).divBy n).divPos c) = x / n := by
   have hcr : (c : Rat) ≠ 0 := by exact_mod_cast hc
-  simp only [PV.divNat, PV.divPos]
-  by_cases hpos : 0 < x / (n : Rat)
+  simp only [PV.divBy, PV.divPos]
+  by_cases hpos : 0 < x / n
   · simp only [hpos, if_true, numOf]
     grind
   · simp only [hpos, if_false, numOf]
-    have hn0 : (0 : Rat) < (n : Rat) := Rat.natCast_pos.mpr (Nat.pos_of_ne_zero hn)
-    have hle : x / (n : Rat) ≤ 0 := Rat.not_lt.mp hpos
-    have hge : 0 ≤ x / (n : Rat) := by
+    have hle : x / n ≤ 0 := Rat.not_lt.mp hpos
+    have hge : 0 ≤ x / n := by
       rw [Rat.div_def]
-      exact Rat.mul_nonneg hx (Rat.le_of_lt (Rat.inv_pos.mpr hn0))
-    have : x / (n : Rat) = 0 := Rat.le_antisymm hle hge
+      exact Rat.mul_nonneg hx (Rat.le_of_lt (Rat.inv_pos.mpr hn))
+    have : x / n = 0 := Rat.le_antisymm hle hge
     rw [this]
     grind
 
